@@ -102,6 +102,27 @@ void explore13(Options const& o, std::vector<Shim*> const& shims, std::vector<Sh
       rec.add_states(S.size(), S.size(), S.size() * 2);
       }
       sweep_un_set(s, SQ_OPS[oi], Sneg, o.threads, rec, ob | (2ull << 48), [&](i64 x, i64 got, u64 ord, LocalViol& lv) { c.val(s, oi, x, got, ord, lv); });
+      // arguments just below (and just above) the squares of k = 2^15*j +- t: x*2^16 = k^2 - t^2, the rounding boundary of every
+      // square-root implementation (a correctly rounded floating-point root returns exactly k there)
+      {
+      const i64 JMAX = th ? 92681 : 92681; const int step = th ? 1 : 3;
+      const size_t B = 1024; size_t nb = static_cast<size_t>((JMAX + static_cast<i64>(B) - 1) / static_cast<i64>(B));
+      parallel_blocks(nb, o.threads, [&](size_t blk, int) {
+        LocalViol lv(rec); std::vector<i64> in, out;
+        for( i64 j = std::max<i64>(1, static_cast<i64>(blk * B)); j < std::min<i64>(JMAX, static_cast<i64>((blk + 1) * B)); j += step )
+          for( i64 t = 1; t <= 3; ++t ) for( int sg = -1; sg <= 1; sg += 2 ) for( i64 d = -1; d <= 1; ++d )
+            { i128 x = (static_cast<i128>(j) * j << 14) + sg * j * t + d; if( x > 0 && x < LIM47 ) in.push_back(static_cast<i64>(x)); }
+        std::sort(in.begin(), in.end()); in.erase(std::unique(in.begin(), in.end()), in.end());
+        out.resize(in.size());
+        s->fm_un_batch(SQ_OPS[oi], in.data(), in.size(), out.data());
+        for( size_t i = 0; i < in.size(); ++i )
+          {
+          c.val(s, oi, in[i], out[i], ob | (4ull << 48) | (blk << 20) | i, lv);
+          if( i > 0 && out[i] < out[i - 1] ) { i64 x = in[i], xp = in[i - 1], p = out[i - 1], g = out[i]; lv.hit(c.c_mono[oi], ob | (4ull << 48) | (blk << 20) | i, [=]{ return ex1(s, SQ_N[oi], "monotone, near a perfect square", {{"x",to_s(x)},{"earlier_x",to_s(xp)}}, ">= " + to_s(p), to_s(g), "mono", {to_s(oi), to_s(x), to_s(xp)}); }); }
+          }
+        rec.add_states(in.size(), in.size(), 2 * in.size());
+        });
+      }
       // all exactly representable squares
       {
       const size_t B = 1 << 14; size_t nb = static_cast<size_t>((MS + static_cast<i64>(B) - 1) / static_cast<i64>(B));
